@@ -1,14 +1,18 @@
 #!/bin/sh
 # usage: tools/with_patch.sh <patch.diff> <command...>
-# Applies the patch to a scratch copy of /repo (under /dev/shm), runs the command with VERIF_REPO pointing at it, removes the copy.
+# Applies the patch (3-way, so patches made against an ancestor of HEAD still apply) to a scratch git worktree of /repo
+# under /dev/shm (plus /repo's uncommitted changes), runs the command with VERIF_REPO pointing at it, removes the worktree.
 set -u
-P="$1"; shift
+P=$(readlink -f "$1"); shift
 D=$(mktemp -d /dev/shm/repo-mut-XXXXXX)
-git -C /repo archive HEAD dataflows | tar -x -C "$D"
-# include uncommitted changes of /repo's working tree
-(cd /repo && git diff HEAD -- dataflows) | (cd "$D" && git apply --allow-empty -p1 2>/dev/null || true)
-(cd "$D" && git apply -p1 "$P") || { echo "PATCH DID NOT APPLY: $P"; rm -rf "$D"; exit 3; }
+rmdir "$D"
+git -C /repo worktree add --detach "$D" HEAD >/dev/null 2>&1 || { echo "cannot create worktree $D"; exit 3; }
+(cd /repo && git diff HEAD -- dataflows) > "$D.wip"
+if [ -s "$D.wip" ]; then (cd "$D" && git apply "$D.wip"); fi
+rm -f "$D.wip"
+(cd "$D" && (git apply "$P" 2>/dev/null || git apply --3way "$P" >/dev/null 2>&1)) || { echo "PATCH DID NOT APPLY: $P"; git -C /repo worktree remove --force "$D"; exit 3; }
+if grep -rq '^<<<<<<<' "$D/dataflows"; then echo "PATCH DID NOT APPLY (conflict): $P"; git -C /repo worktree remove --force "$D"; exit 3; fi
 VERIF_REPO="$D" "$@"
 rc=$?
-rm -rf "$D"
+git -C /repo worktree remove --force "$D"
 exit $rc
